@@ -66,13 +66,7 @@ func c08Cells() []c08Cell {
 		return out
 	}
 	pkt := func(p rtcp.Packet, over bool) c08Probe { return c08Probe{over: over, pkt: p, value: p} }
-	text := func(r *core.Rand, n int) string {
-		b := r.Bytes(n)
-		for i := range b {
-			b[i] = 'a' + b[i]%26
-		}
-		return string(b)
-	}
+	text := func(r *core.Rand, n int) string { return gen.TextN(r, n) }
 	cells := []c08Cell{
 		{"SR.reports", func(r *core.Rand, l int) c08Probe {
 			n, over := lvl(l, 30, 31, 32, 33+r.Intn(300))
